@@ -7,6 +7,7 @@ import z3
 from vlib import circ, circgen, symeval
 from checks.common import REPLAY_PRELUDE
 
+HASH_SEEDS = {"quick": (1,), "thorough": (1, 2, 3)}  # also run (quick size) under these PYTHONHASHSEEDs
 LEVEL = "translation_validation"
 TECHNIQUE = "translation validation: z3 equivalence of every pre-existing gate's real-evaluator term before/after into_bench, plus basis/well-formedness/block predicates"
 USES_STUBS = True
